@@ -280,13 +280,27 @@ fn c11_prefix_body(k: usize, cut: usize) {
     let ipp = InnerProductProof::<UnitA>::verif_from_parts(LA[..k].to_vec(), RA[..k].to_vec(), K271(7), K271(9));
     let proof = R1CSProof::<UnitA>::verif_from_parts(PTS, SCS, ipp);
     let bytes = proof.to_bytes().unwrap();
-    kani::assume(cut < bytes.len());
-    let pre = R1CSProof::<UnitA>::from_bytes(&bytes[..cut]);
-    assert!(matches!(pre, Err(R1CSError::FormatError)));
-    kani::cover!(k == 3 && cut == bytes.len() - 1, "three rounds, longest strict prefix");
+    let len = bytes.len();
+    kani::assume(cut < len);
+    // `cut` is symbolic; the slice is taken with the loop counter (a constant in each unrolled
+    // iteration) in the single iteration where it equals `cut`.  Slicing with `cut` directly
+    // gives a slice of symbolic length, the reader offsets become symbolic and CBMC exhausted
+    // 16 GB after 15 min.
+    let mut c = 0;
+    let mut done = false;
+    while c < 60 {
+        if c == cut && c < len {
+            let pre = R1CSProof::<UnitA>::from_bytes(&bytes[..c]);
+            assert!(matches!(pre, Err(R1CSError::FormatError)));
+            core::mem::forget(pre);
+            done = true;
+        }
+        c += 1;
+    }
+    assert!(done);
+    kani::cover!(k == 1 && cut == len - 1, "one round, longest strict prefix");
     kani::cover!(k == 0 && cut == 0, "zero rounds, empty prefix");
-    kani::cover!(k == 2 && cut == FIXED_BYTES - 4 + 2, "cut inside the L list");
-    core::mem::forget(pre);
+    kani::cover!(k == 1 && cut == FIXED_BYTES - 4 - 8 + 1, "cut inside the L list");
     core::mem::forget(bytes);
     core::mem::forget(proof);
 }
@@ -294,18 +308,21 @@ fn c11_prefix_body(k: usize, cut: usize) {
 /// C11 `c11_prefix_rejected`
 ///
 /// Property: C11 (every strict prefix of a valid encoding is rejected with FormatError).
-/// Symbolic: k in 0..=3 rounds, cut point in 0..len.  Concrete: element values.
+/// Symbolic: k in 0..=1 rounds (case split; 0..=3 ran out of memory, NOTES.md), cut point in
+/// 0..len (matched against a loop counter).
+/// Concrete: element values.
 /// Claim: for every cut < len, `from_bytes(&bytes[..cut])` is `Err(FormatError)`, no panic.
-/// Bound: k <= 3; unwind 8 (list loops run k <= 3 times; with a symbolic slice length the
-/// list-length word is read at a symbolic offset, so CBMC unrolls these loops to the bound and
-/// the unwinding assertions discharge the rest).  No transcript, no stubs.
+/// Bound: k <= 1 (len <= 52); unwind 62.  No transcript, no stubs.
 #[kani::proof]
-#[kani::unwind(8)]
+#[kani::unwind(62)]
 fn c11_prefix_rejected() {
     let k: usize = kani::any();
     let cut: usize = kani::any();
-    kani::assume(k <= 3 && cut <= 64);
-    split4!(k, c11_prefix_body, cut);
+    kani::assume(k <= 1 && cut <= 64);
+    match k {
+        0 => c11_prefix_body(0, cut),
+        _ => c11_prefix_body(1, cut),
+    }
 }
 
 use ark_bulletproofs::r1cs::{ConstraintSystem, Prover, Verifier};
@@ -386,12 +403,12 @@ fn twin_step<P: ConstraintSystem<K271>, V: ConstraintSystem<K271>>(
 }
 
 /// Number of twin steps in `c16_twin_bookkeeping`.
-pub const C16_STEPS: usize = 5;
+pub const C16_STEPS: usize = 3;
 
 /// C16 `c16_twin_bookkeeping` (first phase)
 ///
 /// Property: C16 (prover and verifier assign identical variables for identical call sequences).
-/// Symbolic: the number of calls (0..=5) and each call, chosen from {commit, allocate,
+/// Symbolic: the number of calls (0..=3; 0..=5 ran out of memory, see NOTES.md) and each call, chosen from {commit, allocate,
 /// allocate_multiplier, multiply, constrain, prover-allocate(None), prover-allocate_multiplier(None)}.
 /// Concrete: assigned values, linear-combination shapes.
 /// Claim, after every call: returned `Variable` handles are equal on both roles and equal to
@@ -401,7 +418,7 @@ pub const C16_STEPS: usize = 5;
 /// is equal on both roles; the prover's `allocate(None)` / `allocate_multiplier(None)` return
 /// `Err(MissingAssignment)` and leave the gate count AND the pairing state unchanged (the next
 /// `allocate` still pairs as the model predicts).  No panic.
-/// Bound: <= 5 calls; unwind 16 (toy-transcript folds over labels <= 13 bytes).
+/// Bound: <= 3 calls; unwind 16 (toy-transcript folds over labels <= 13 bytes).
 /// Stubs (level 2, toy transcript): Transcript::{new, append_message, challenge_bytes},
 /// zeroize::optimization_barrier.
 #[kani::proof]
@@ -440,9 +457,9 @@ fn c16_twin_bookkeeping() {
         }
         i += 1;
     }
-    kani::cover!(steps == C16_STEPS && prover.multipliers_len() == 5, "five gates after five calls");
-    kani::cover!(steps == C16_STEPS && allocs_in_a_row == 5 && prover.multipliers_len() == 3, "five single allocations make three gates");
-    kani::cover!(steps == C16_STEPS && commits == 2 && pending.is_some(), "commits and an open gate");
+    kani::cover!(steps == C16_STEPS && prover.multipliers_len() == C16_STEPS, "one gate per call");
+    kani::cover!(steps == C16_STEPS && allocs_in_a_row == 3 && prover.multipliers_len() == 2, "three single allocations make two gates");
+    kani::cover!(steps == C16_STEPS && commits == 2 && pending.is_some(), "two commits and an open gate");
     core::mem::forget(prover);
     core::mem::forget(verifier);
     core::mem::forget(tp);
@@ -518,12 +535,12 @@ fn c12_split_p(parties: usize, c1: usize, c2: usize, c3: usize) {
 /// Claim: after `new(c1,p); increase_capacity(c2); increase_capacity(c3)`:
 /// `gens_capacity == max(c1,c2,c3)`, every party's G and H chains have exactly that many
 /// elements and are element-wise equal to those of `new(max,p)`.  No panic.
-/// Bound: capacities <= 4, parties <= 2 (250 arms); unwind 66 (64-byte squeeze of the SHA-3 stub).
+/// Bound: capacities <= 4, parties <= 2 (250 arms); unwind 74 (72-byte SHA-3 block buffer initialisation; 66 gives an unwinding-assertion failure).
 /// Stubs: level-2 SHA-3 (`Sha3_512Core::finalize_fixed_core`), keccak::p1600,
 /// ChaCha20Core::{from_seed, generate}, zeroize::optimization_barrier.
 /// Not covered here: serialisation round trip, distinctness of chains (native test only).
 #[kani::proof]
-#[kani::unwind(66)]
+#[kani::unwind(74)]
 #[kani::stub(keccak::f1600, f1600_stub)]
 #[kani::stub(keccak::p1600, p1600_stub)]
 #[kani::stub(zeroize::optimization_barrier, barrier_stub)]
@@ -544,7 +561,7 @@ fn c12_generators_history_independent() {
 
 /// One arm of the above (history 3,1,4, two parties): used to size the full harness.
 #[kani::proof]
-#[kani::unwind(66)]
+#[kani::unwind(74)]
 #[kani::stub(keccak::f1600, f1600_stub)]
 #[kani::stub(keccak::p1600, p1600_stub)]
 #[kani::stub(zeroize::optimization_barrier, barrier_stub)]
@@ -562,9 +579,9 @@ fn c12_one_history_3_1_4() {
 /// Symbolic: n in 0..=4, m in 0..=2 (views); concrete: `BulletproofGens::new(4, 2)`.
 /// Claim: `G(n,m)` / `H(n,m)` yield exactly n*m items, item k being generator k % n of party
 /// k / n as returned by `share(j).verif_G(4)` / `verif_H(4)`, then `None`.  No panic.
-/// Bound: capacity 4, parties 2; unwind 66.  Stubs: as `c12_generators_history_independent`.
+/// Bound: capacity 4, parties 2; unwind 74.  Stubs: as `c12_generators_history_independent`.
 #[kani::proof]
-#[kani::unwind(66)]
+#[kani::unwind(74)]
 #[kani::stub(keccak::f1600, f1600_stub)]
 #[kani::stub(keccak::p1600, p1600_stub)]
 #[kani::stub(zeroize::optimization_barrier, barrier_stub)]
@@ -572,12 +589,18 @@ fn c12_one_history_3_1_4() {
 #[kani::stub(<ChaCha20Core as BlockRngCore>::generate, chacha_generate_stub)]
 #[kani::stub(<Sha3_512Core as FixedOutputCore>::finalize_fixed_core, sha3_512_finalize_stub)]
 fn c12_aggregated_iter_party_major() {
+    c12_aggregated_body(0);
+}
+
+/// Shared body: `min_n` is the smallest view width admitted.
+fn c12_aggregated_body(min_n: usize) {
     let bp = BulletproofGens::<UnitA>::new(4, 2);
     let g = [bp.share(0).verif_G(4), bp.share(1).verif_G(4)];
     let h = [bp.share(0).verif_H(4), bp.share(1).verif_H(4)];
     let n: usize = kani::any();
     let m: usize = kani::any();
-    kani::assume(n <= 4 && m <= 2);
+    kani::assume(n >= min_n && n <= 4 && m <= 2);
+    {
     let mut ig = bp.G(n, m);
     let mut ih = bp.H(n, m);
     let mut count = 0usize;
@@ -598,11 +621,27 @@ fn c12_aggregated_iter_party_major() {
     assert!(count == n * m);
     assert!(ig.next().is_none());
     assert!(ih.next().is_none());
+    }
     kani::cover!(n == 4 && m == 2, "full view");
-    kani::cover!(n == 0 && m == 2, "zero generators per party");
+    kani::cover!(n == min_n && m == 2, "narrowest view, two parties");
     kani::cover!(n == 3 && m == 1, "partial view");
     core::mem::forget((g, h));
     core::mem::forget(bp);
+}
+
+/// C12 `c12_aggregated_iter_party_major_nonzero_n`: the same statement restricted to n >= 1
+/// (see NOTES.md: for n = 0 and m = 2 the unrestricted harness FAILS on the current tree --
+/// the iterator yields one item).  Same bound, unwind and stubs.
+#[kani::proof]
+#[kani::unwind(74)]
+#[kani::stub(keccak::f1600, f1600_stub)]
+#[kani::stub(keccak::p1600, p1600_stub)]
+#[kani::stub(zeroize::optimization_barrier, barrier_stub)]
+#[kani::stub(<ChaCha20Core as SeedableRng>::from_seed, chacha_from_seed_stub)]
+#[kani::stub(<ChaCha20Core as BlockRngCore>::generate, chacha_generate_stub)]
+#[kani::stub(<Sha3_512Core as FixedOutputCore>::finalize_fixed_core, sha3_512_finalize_stub)]
+fn c12_aggregated_iter_party_major_nonzero_n() {
+    c12_aggregated_body(1);
 }
 
 use ark_bulletproofs::r1cs::{batch_verify, RandomizableConstraintSystem};
@@ -669,7 +708,7 @@ fn c17v_body(n2: usize, n1: usize, cap: usize, bp: &BulletproofGens<UnitA>) {
     let mut t2 = Transcript::new(b"c17");
     let v2 = c17_verifier(&mut t2, n1, n2);
     let mut rng = CounterRng(3);
-    let res2 = batch_verify(&mut rng, vec![(v2, &proof)], &pc, bp);
+    let res2 = batch_verify(&mut rng, core::iter::once((v2, &proof)), &pc, bp);
     if cap < thr {
         assert!(res2 == Err(R1CSError::InvalidGeneratorsLength));
     } else {
@@ -705,10 +744,10 @@ fn c17v_cap(cap: usize, n1: usize, n2: usize) {
 /// `Err(VerificationError)` otherwise; no panic.  NOT claimed here: behaviour of the part of
 /// `verify` after the T_1 check with sufficient capacity (see `c08_verify_*`, and the native
 /// honest round trip).
-/// Bound: 72 arms; unwind 66.  Stubs: level 2 (toy transcript, SHA-3 finalisation), ChaCha,
+/// Bound: 72 arms; unwind 74.  Stubs: level 2 (toy transcript, SHA-3 finalisation), ChaCha,
 /// keccak, zeroize barrier.
 #[kani::proof]
-#[kani::unwind(66)]
+#[kani::unwind(74)]
 #[kani::stub(keccak::f1600, f1600_stub)]
 #[kani::stub(keccak::p1600, p1600_stub)]
 #[kani::stub(zeroize::optimization_barrier, barrier_stub)]
